@@ -1,4 +1,5 @@
 import Pike.Driver.Wire
+import Pike.Model.Conditional
 namespace Pike.Driver
 open Pike Wire
 
@@ -64,18 +65,27 @@ def judgeFault (fields : List String) : String :=
       let stuck := c1 = -2 ∨ c2 = -2 ∨ c3 = -2 ∨ ms1 ≥ 5000 ∨ ms2 ≥ 5000 ∨ ms3 ≥ 5000
       s!"ok badenc-{str enc}-{str cut} 1" ++ (if stuck then " TRIP blocked" else "")
     | _, _, _, _, _, _, _, _ => "BADLINE fault badenc"
-  | ["cond", kind, _timeout, "=>", c1, xs1, c2, xs2, c3, n3, xs3, contacts] =>
-    match unhex kind, c1.toNat?, unhex xs1, c2.toNat?, unhex xs2, c3.toNat?, n3.toNat?, unhex xs3, contacts.toNat? with
-    | some kind, some c1, some xs1, some c2, some xs2, some c3, some n3, some xs3, some contacts =>
-      -- the client's validators match the resource: 304 on the cold fetch (from the full response that was fetched
-      -- and stored without them) and 304 on the hit; the plain client afterwards gets the full stored response; the
-      -- origin was asked once
-      let trip := (if c1 ≠ 304 ∨ c2 ≠ 304 then " TRIP no_304" else "")
-        ++ (if c3 ≠ 200 ∨ n3 ≠ 25 then " TRIP partial_replayed" else "")
-        ++ (if contacts ≠ 1 then " TRIP upstream_contacts_ne_one" else "")
-      if c1 = 304 ∧ c2 = 304 ∧ c3 = 200 ∧ n3 = 25 ∧ contacts = 1 ∧ xs1 = "fetching".toList ∧ xs2 = "hit".toList ∧ xs3 = "hit".toList
-      then s!"ok cond-{str kind} 1{trip}"
-      else s!"DIFF fault cond {str kind} model=(304,fetching,304,hit,200,25,hit,1) impl=({c1},{str xs1},{c2},{str xs2},{c3},{n3},{str xs3},{contacts}){trip}"
+  | ["cond", inm, imsP, ims, cc, lm, etag, "=>", c1, xs1, c2, xs2, c3, n3, xs3, contacts] =>
+    match unhex inm, ims.toNat?, unhex cc, lm.toNat?, unhex etag, c1.toNat?, unhex xs1, c2.toNat?, unhex xs2 with
+    | some inm, some ims, some cc, some lm, some etag, some c1, some xs1, some c2, some xs2 =>
+      match c3.toNat?, n3.toNat?, unhex xs3, contacts.toNat? with
+      | some c3, some n3, some xs3, some contacts =>
+        -- a revalidating client on a COLD key (the proxy withholds its validators from the origin, so a full answer
+        -- is fetched and stored) and again on the hit: 304 exactly when `Conditional.check` says so; the plain
+        -- client afterwards gets the stored full answer; the origin was asked once
+        let fresh := Conditional.check (imsP = "1") ims inm cc lm etag
+        let want : Nat := if fresh then 304 else 200
+        let allMatch := (imsP = "1" ∨ !inm.isEmpty) ∧ !Conditional.hasNoCache cc
+          ∧ Conditional.inmOK inm etag ∧ Conditional.imsOK (imsP = "1") ims lm
+        let trip := (if allMatch ∧ (c1 ≠ 304 ∨ c2 ≠ 304) then " TRIP no_304" else "")
+          ++ (if !allMatch ∧ (c1 = 304 ∨ c2 = 304) then " TRIP status_or_header_changed" else "")
+          ++ (if c3 ≠ 200 ∨ n3 ≠ 25 then " TRIP partial_replayed" else "")
+          ++ (if contacts ≠ 1 then " TRIP upstream_contacts_ne_one" else "")
+        let cls := if fresh then "304" else "200"
+        if c1 = want ∧ c2 = want ∧ c3 = 200 ∧ n3 = 25 ∧ contacts = 1 ∧ xs1 = "fetching".toList ∧ xs2 = "hit".toList ∧ xs3 = "hit".toList
+        then s!"ok cond-{cls} 1{trip}"
+        else s!"DIFF fault cond model=({want},fetching,{want},hit,200,25,hit,1) impl=({c1},{str xs1},{c2},{str xs2},{c3},{n3},{str xs3},{contacts}){trip}"
+      | _, _, _, _ => "BADLINE fault cond tail"
     | _, _, _, _, _, _, _, _, _ => "BADLINE fault cond"
   | _ => "BADLINE fault fields"
 
